@@ -146,6 +146,9 @@ def runtime_check(res: Result, ws_name, decls, props_to_run, extra_emit=None, fe
     ok, quarantined, info = cratebuild.build_workspace(ws, modules, features, log=log)
     log("build %s: ok=%s quarantined=%d %s" % (ws_name, ok, len(quarantined), {k: v for k, v in info.items() if k in ("rounds", "build_s")}))
     res.declarations = len(modules) - len(quarantined)
+    unspec = {k: v for k, v in quarantined.items() if by_id[k][0].unspecified}
+    quarantined = {k: v for k, v in quarantined.items() if k not in unspec}
+    res.extra.setdefault("coverage_extra", {})["unspecified_declarations_rejected"] = {k: by_id[k][0].decl_text() for k in unspec}
     res.quarantined = {k: {"decl": by_id[k][0].decl_text(), "errors": v} for k, v in quarantined.items()}
     if not ok:
         res.inconclusive.append("harness build failed: %s" % (json.dumps(info)[:1500]))
